@@ -458,6 +458,17 @@ func (r *Runner) step(i int, op Op) {
 		} else {
 			r.Rep.Event("gc.no_legal_range", 1)
 		}
+	case "damage":
+		if d, ok := r.S.(Damager); ok {
+			info, done := d.Damage(op.Sel)
+			r.tracef("damage sel=%d -> done=%v %s", op.Sel, done, info)
+			if done {
+				r.Rep.Event("damage.superseded_records", 1)
+				r.CheckAll("after-damage")
+			} else {
+				r.Rep.Event("damage.no_candidate", 1)
+			}
+		}
 	case "check":
 		r.CheckAll("check")
 	case "list":
